@@ -51,6 +51,7 @@ def _gen_dz(rng, tier):
 
 
 contract("buidl.pecc.PrivateKey.deterministic_k", props=("C01",), by_contract=True, returns=("int", 1, N - 1),
+         returns_expr="spec.ecdsa.rfc6979_k(self.secret, z)",
          params={"self": obj("buidl.pecc.PrivateKey", secret=("int", 1, N - 1)), "z": U256},
          ensures=["returns()", "1 <= result < spec.ecdsa.N", "result == spec.ecdsa.rfc6979_k(self.secret, z)"],
          invariants={1: {"inv": ["len(k) == 32 and len(v) == 32", "spec.ecdsa.rfc_loop(k, v) == spec.ecdsa.rfc_loop(k0, v0)"],
@@ -87,3 +88,55 @@ contract("verif.harness.ecc.der_of", props=("C01",), params={"r": U256P, "s": U2
          ensures=["returns()", "result == spec.ecdsa.der(r, s)"], gen=_gen_rs, max_paths=5000, tiers=("thorough",))
 contract("verif.harness.ecc.der_roundtrip", props=("C01",), params={"r": U256P, "s": U256P},
          ensures=["returns()", "result == (r, s)"], gen=_gen_rs, max_paths=5000, tiers=("thorough",))
+
+
+# ---------------------------------------------------------------------------- C02 BIP340
+B32 = "bytes:32"
+
+
+def _gen_schnorr_sign(rng, tier):
+    for d in _DS:
+        for m in (bytes(32), b"\xff" * 32, rand_bytes(rng, 32)):
+            yield {"d": d, "msg": m, "aux": bytes(32)}
+            yield {"d": d, "msg": m, "aux": rand_bytes(rng, 32)}
+    while True:
+        yield {"d": rng.randrange(1, N), "msg": rand_bytes(rng, 32), "aux": rand_bytes(rng, 32)}
+
+
+contract("verif.harness.ecc.schnorr_sign_bytes", props=("C02",), nl_uf=True,
+         params={"d": ("int", 1, N - 1), "msg": B32, "aux": B32},
+         requires=["spec.schnorr.sign_defined(d, msg, aux)"],
+         ensures=["returns()", "result == spec.schnorr.sign(d, msg, aux)"],
+         gen=_gen_schnorr_sign)
+
+contract("verif.harness.ecc.schnorr_sign_then_verify", props=("C02",), nl_uf=True,
+         params={"d": ("int", 1, N - 1), "msg": B32, "aux": B32},
+         requires=["spec.schnorr.sign_defined(d, msg, aux)"],
+         ensures=["returns()", "result is True"],
+         gen=_gen_schnorr_sign)
+
+
+def _gen_schnorr_verify(rng, tier):
+    from buidl.pecc import PrivateKey
+    import verif.specs as s
+    Pf = s.curve.P
+    for d in _DS[:4] + [rng.randrange(1, N) for _ in range(4 if tier == "quick" else 30)]:
+        m = rand_bytes(rng, 32)
+        sig = PrivateKey(d).sign_schnorr(m, rand_bytes(rng, 32)).serialize()
+        r, sv = sig[:32], int.from_bytes(sig[32:], "big")
+        yield {"pub": {"__point__": d}, "msg": m, "sig": sig}
+        yield {"pub": {"__point__": N - d}, "msg": m, "sig": sig}
+        forged = [r + ((sv + N) % 2**256).to_bytes(32, "big"), r + (N - sv).to_bytes(32, "big"), r + N.to_bytes(32, "big"),
+                  r + bytes(32), Pf.to_bytes(32, "big") + sig[32:], bytes(32) + sig[32:], sig[:31] + bytes([sig[31] ^ 1]) + sig[32:],
+                  sig[:63] + bytes([sig[63] ^ 1])]
+        for f in forged:
+            yield {"pub": {"__point__": d}, "msg": m, "sig": f}
+        yield {"pub": {"__point__": d}, "msg": bytes([m[0] ^ 1]) + m[1:], "sig": sig}
+        yield {"pub": {"__point__": d + 1 if d + 1 < N else 1}, "msg": m, "sig": sig}
+
+
+contract("verif.harness.ecc.schnorr_verify_bytes", props=("C02",), nl_uf=True,
+         params={"pub": point, "msg": B32, "sig": "bytes:64"},
+         ensures=["implies(returns(), result == spec.schnorr.verify(spec.curve.x_of(pub).to_bytes(32, 'big'), msg, sig))",
+                  "implies(raises(), not spec.schnorr.verify(spec.curve.x_of(pub).to_bytes(32, 'big'), msg, sig))"],
+         gen=_gen_schnorr_verify)
